@@ -86,7 +86,14 @@ def split_top(s, seps):
 
 def words(cmd):
     """split a simple command into words (quotes and $(...) kept inside a word)."""
-    return [w for w, _ in split_top(cmd, [" "]) if w != ""]
+    return [norm_word(w) for w, _ in split_top(cmd, [" "]) if w != ""]
+
+def norm_word(w):
+    """one spelling for a variable reference: "$X", "${X}", ${X} -> $X (quotes around a word
+    without blanks, braces not followed by a name character)."""
+    if len(w) >= 2 and w[0] == '"' and w[-1] == '"' and '"' not in w[1:-1] and " " not in w[1:-1] and "\\" not in w:
+        w = w[1:-1]
+    return re.sub(r"\$\{([A-Za-z_][A-Za-z0-9_]*)\}(?![A-Za-z0-9_])", r"$\1", w)
 
 class Node:
     def __init__(self, kind, **kw):
